@@ -11,7 +11,7 @@ RULE = ("random nested data (lists 0-12 items, maps with repeated keys, sequence
         "is rendered to text with random blanks / newlines / '#' comments between all tokens and, where "
         "allowed, a final delimiter; the grammar is generated per case from template options: list "
         "{delimiter, none} x allow_final_delimiter x nullable items, map allow_final_delimiter, optional "
-        "list / map present, empty or absent, bracket-less lists with and without delimiter in front of '|' "
+        "list / map present, empty or absent, bracket-less lists with and without delimiter and a bracket-less map in front of '|' "
         "and at the end of the text, sequences with or without container elements. The cleaned parse result "
         "is normalised and compared with the generated data (lists in order, dict(pairs) incl. key order, "
         "sequences element by element); texts with a final delimiter where it is not allowed must raise "
@@ -46,6 +46,7 @@ SYN = {'BO': '[', 'BC': ']', 'CO': '{', 'CC': '}', 'COMMA': ',', 'COLON': ':', '
 def gen_options(rng):
     o = dict(delim=rng.random() < 0.75, afd=rng.random() < 0.5, mafd=rng.random() < 0.5,
              bdelim=rng.random() < 0.5, b2delim=rng.random() < 0.5, nullable_item=False,
+             bmafd=rng.random() < 0.5,
              seq_containers=rng.random() < 0.3)
     if o['delim'] and not o['afd'] and rng.random() < 0.4:
         o['nullable_item'] = True
@@ -55,7 +56,8 @@ def gen_options(rng):
 def mk_parser(o):
     seq_symbols = ['WORD', 'NUMBER', 'PAR'] + (['LIST', 'MAP'] if o['seq_containers'] else [])
     prods = {
-        'E': [('BL2', '|', 'VALUE', ';', 'OPT_TAIL')],
+        'E': [('BL2', '|', 'BMAP', '|', 'VALUE', ';', 'OPT_TAIL')],
+        'BMAP': MapProds(None, 'WORD', ':', 'NUMBER', ',', None, allow_final_delimiter=o['bmafd']),
         'OPT_TAIL': [('OLIST', 'OMAP', 'BLIST')],
         'VALUE': [('WORD',), ('NUMBER',), ('LIST',), ('MAP',), ('SEQ_H',)],
         'LIST': ListProds('[', 'ITEM', ',' if o['delim'] else None, ']',
@@ -292,9 +294,13 @@ def has_repeated_keys(v):
     return any(has_repeated_keys(c) for c in x)
 
 
-def build_text(rng, o, v, bl2, ol, om, bl, bad_target=None, bad_tail=None):
+def build_text(rng, o, v, bl2, ol, om, bl, bad_target=None, bad_tail=None, bm=()):
     rnd = Renderer(rng, o, bad_target)
     text = ws(rng) + ((" , " if o['b2delim'] else sep(rng)).join(bl2))
+    text += ws(rng) + "|" + ws(rng) + (ws(rng) + "," + ws(rng)).join(k + ws(rng) + ":" + ws(rng) + x for k, x in bm)
+    if bm and o['bmafd'] and rng.random() < 0.3:
+        text += ws(rng) + ","
+        rnd.final_delims += 1
     text += ws(rng) + "|" + ws(rng) + rnd.render(v) + ws(rng) + ";" + ws(rng)
     if ol is not None:
         text += "[" + ws(rng) + (ws(rng) + "," + ws(rng)).join(ol)
@@ -312,7 +318,7 @@ def build_text(rng, o, v, bl2, ol, om, bl, bad_target=None, bad_tail=None):
     return text, rnd
 
 
-def judge(ctx, o, text, v, bl2, ol, om, bl, negative, case):
+def judge(ctx, o, text, v, bl2, ol, om, bl, negative, case, bm=()):
     ctx.evaluated()
     parser = mk_parser(o)
     try:
@@ -334,8 +340,8 @@ def judge(ctx, o, text, v, bl2, ol, om, bl, negative, case):
     mech = None
     detail = None
     try:
-        assert t.name == 'E' and not t.is_leaf() and len(t.value) == 5, "shape of E"
-        got_bl2, _, got_v, _, tail = t.value
+        assert t.name == 'E' and not t.is_leaf() and len(t.value) == 7, "shape of E"
+        got_bl2, _, got_bm, _, got_v, _, tail = t.value
         tv = {c.name: c for c in tail.value}
         exp_v = expect(v)
         g = norm(got_v)
@@ -360,6 +366,8 @@ def judge(ctx, o, text, v, bl2, ol, om, bl, negative, case):
                 mech, detail = "bracketless-list-differs", {"got": repr(norm(tv['BLIST'])), "expected": bl}
             elif norm(got_bl2) != bl2:
                 mech, detail = "bracketless-list-differs", {"got": repr(norm(got_bl2)), "expected": bl2}
+            elif norm(got_bm) != ('DICT', list(dict(bm).items())):
+                mech, detail = "bracketless-map-differs", {"got": repr(norm(got_bm)), "expected": list(bm)}
     except (AssertionError, KeyError, AttributeError, TypeError) as err:
         mech, detail = "unexpected-result-shape", {"err": repr(err)[:200], "result": safe_norm(t)}
     if mech:
@@ -404,6 +412,7 @@ def run_shard(ctx):
             om = None if rng.random() < 0.4 else [(rng.choice(["k", "m"]), str(rng.randint(0, 9)))
                                                   for _ in range(rng.randint(0, 3))]
             bl = [str(rng.randint(0, 99)) for _ in range(rng.randint(0, 4))]
+            bm = [(rng.choice(["k", "m", "z"]), str(rng.randint(0, 9))) for _ in range(rng.choice([0, 0, 1, 2, 4]))]
             negative = False
             bad_target = None
             bad_tail = False
@@ -413,12 +422,12 @@ def run_shard(ctx):
                     bad_target = rng.randrange(n)
                 elif bl and o['bdelim']:
                     bad_tail = True
-            text, rnd = build_text(rng, o, v, bl2, ol, om, bl, bad_target, bad_tail)
+            text, rnd = build_text(rng, o, v, bl2, ol, om, bl, bad_target, bad_tail, bm)
             negative = rnd.bad_done
             ctx.count("final_delimiters_accepted", 0 if negative else rnd.final_delims)
             case = {"options": o, "text": text, "value": v, "bl2": bl2, "ol": ol, "om": om, "bl": bl,
-                    "negative": negative}
-            judge(ctx, o, text, v, bl2, ol, om, bl, negative, case)
+                    "negative": negative, "bm": bm}
+            judge(ctx, o, text, v, bl2, ol, om, bl, negative, case, bm)
             if i == 0 and j < 2:
                 ctx.sample({"options": o, "text": text, "expected_value": repr(expect(v))[:300]})
 
@@ -433,4 +442,4 @@ def replay(ctx, case):
     if om is not None:
         om = [tuple(x) for x in om]
     judge(ctx, case["options"], case["text"], case["value"], case["bl2"], case["ol"], om, case["bl"],
-          case["negative"], case)
+          case["negative"], case, [tuple(x) for x in case.get("bm", [])])
